@@ -190,14 +190,14 @@ func DecodeHintRecord(buf []byte) ([]byte, *DataPos) {
 func DecodeChunk(block []byte) ([]byte, ChunkType, error) {
 	// 可读字节不足以容纳 chunk 头部
 	if len(block) < chunkHeaderSize {
-		return nil, 0, ErrInvalidCRC
+		return nil, 0, ErrIncompleteChunk
 	}
 	// length
 	length := binary.LittleEndian.Uint16(block[4:6])
 	start, end := chunkHeaderSize, chunkHeaderSize+uint32(length)
 	// 头部记录的长度超出可读范围, 说明数据已损坏, 必须先于计算校验和进行判断, 否则切片越界
 	if int(end) > len(block) {
-		return nil, 0, ErrInvalidCRC
+		return nil, 0, ErrIncompleteChunk
 	}
 	checksum := crc32.ChecksumIEEE(block[4:end])
 	savedSum := binary.LittleEndian.Uint32(block[:4])
